@@ -700,7 +700,7 @@ impl Campaign for C20 {
     }
 
     fn rule(&self) -> String {
-        "one run = 2..5 generated programs (tenants) built in a random order into one data object (SimpleGarnishData or BasicGarnishData, chosen per run), interleaved with complete runs, runs abandoned after 0..12 steps with frames popped and the rest left or cleaned, failed builds leaving residue, host allocations and (Basic) retain+optimize; at the end every built tenant is run to completion. Each tenant is compared with its solo build (stream modulo offsets) and solo run (result, host-call history, step count, status), and every earlier tenant's instructions, jump entries and constants are re-read after every event. distinct = distinct scenario hash; non-trivial = at least two tenants built and at least one solo-vs-shared comparison made".to_string()
+        "one run = 2..5 generated programs (tenants) built in a random order into one data object (SimpleGarnishData or BasicGarnishData, chosen per run), interleaved with complete runs, runs abandoned after 0..12 steps with frames popped and the rest left or cleaned, failed builds leaving residue, scratch programs (throw-away programs, mostly casts / lookups that stop with an error half-way: residue of earlier executions), host allocations and (Basic) retain+optimize; tenants include top-level reapply loops and body-less nested expressions; at the end every built tenant is run to completion. Each tenant is compared with its solo build (stream modulo offsets) and solo run (result, host-call history, step count, status), and every earlier tenant's instructions, jump entries and constants are re-read after every event. distinct = distinct scenario hash; non-trivial = at least two tenants built and at least one solo-vs-shared comparison made".to_string()
     }
 
     fn components(&self) -> Value {
